@@ -11,6 +11,7 @@ import (
 	"testing"
 
 	"github.com/hedzr/is/term/color"
+	"github.com/hedzr/is"
 	"github.com/hedzr/logg/slog"
 	"github.com/hedzr/logg/slog/verifharness/vlib"
 	"pgregory.net/rapid"
@@ -246,7 +247,7 @@ func (w *world) checkLevel(l slog.Level) {
 	// gating as the treated-as level, routing to the error device iff requested
 	for _, L := range []slog.Level{slog.ErrorLevel, slog.InfoLevel, slog.TraceLevel, slog.OKLevel} {
 		lg := slog.New("gate").SetLevel(L)
-		if got, want := lg.Enabled(l), w.model.Admit(L, l, false); got != want {
+		if got, want := lg.Enabled(l), w.model.Admit(L, l, is.DebugMode()); got != want {
 			t.Fatalf("C17 after [%s]: logger at %v: Enabled(%d) = %v, model (treated-as/numeric) says %v", w.history(), L, int(l), got, want)
 		}
 	}
